@@ -5,6 +5,7 @@ import (
 	"fmt"
 	"math"
 	"reflect"
+	"regexp"
 
 	"github.com/antonmedv/expr/ast"
 	"github.com/antonmedv/expr/conf"
@@ -398,9 +399,20 @@ func (c *compiler) BinaryNode(node *ast.BinaryNode) {
 }
 
 func (c *compiler) MatchesNode(node *ast.MatchesNode) {
-	if node.Regexp != nil {
+	// The parser compiles a literal pattern once, but a visitor (user patch,
+	// optimizer) may have replaced the right operand since: the compiled
+	// pattern is only valid for the string literal it was compiled from.
+	if s, ok := node.Right.(*ast.StringNode); ok {
+		r := node.Regexp
+		if r == nil || r.String() != s.Value {
+			var err error
+			r, err = regexp.Compile(s.Value)
+			if err != nil {
+				panic(err)
+			}
+		}
 		c.compile(node.Left)
-		c.emit(OpMatchesConst, c.makeConstant(node.Regexp)...)
+		c.emit(OpMatchesConst, c.makeConstant(r)...)
 		return
 	}
 	c.compile(node.Left)
